@@ -698,6 +698,60 @@ fn cli_case(cx: &mut Cx, name: &str)
 
 const CLI_CASES: [&str; 6] = ["noargs", "noout-ok", "noout-fail", "noout-empty", "missing-input", "fail-with-out"];
 
+/// programs that must be REFUSED by the executable (`refuse <name> <seed>`): the boot sector's own bytes at 0x100000FC..FF — even when
+/// they happen to equal the checksum of the 252 bytes before them; `.addr` to an address that already holds output — even when it is
+/// the cursor of the region being written. No output file is created, an existing one is not modified, the failure is announced.
+fn refuse_case(cx: &mut Cx, name: &str, seed: u64)
+{
+	let input = format!("refuse {name} {seed}");
+	let mut rng = Rng::new(seed);
+	let dir = cx.work.join("trias-refuse");
+	let _ = std::fs::remove_dir_all(&dir);
+	std::fs::create_dir_all(&dir).unwrap();
+	let code: Vec<u8> = (0..252).map(|_| rng.next() as u8).collect();
+	let hexs = |b: &[u8]| b.iter().map(|x| format!("{x:02x}")).collect::<String>();
+	let crc = crc_mpeg2(&code).to_le_bytes();
+	let n = 1 + rng.below(200) as usize;
+	let mut short = code[..n].to_vec();
+	short.resize(252, 0);
+	let crc_short = crc_mpeg2(&short).to_le_bytes();
+	let main: String = match name
+	{
+		"crc-du32" => format!(".addr 0x10000000;\n.dhex \"{}\";\n.du32 0x{:08X};\n", hexs(&code), u32::from_le_bytes(crc)),
+		"crc-dhex" => format!(".addr 0x10000000;\n.dhex \"{}{}\";\nNOP;\n", hexs(&code), hexs(&crc)),
+		"crc-dfile" => {let mut blob = code.clone(); blob.extend_from_slice(&crc); std::fs::write(dir.join("boot2.bin"), &blob).unwrap(); ".addr 0x10000000;\n.dfile \"boot2.bin\";\n".to_owned()},
+		"crc-two-regions" => format!(".addr 0x100000FE;\n.dhex \"{}\";\n.addr 0x10000000;\n.dhex \"{}{}\";\n", hexs(&crc[2..]), hexs(&code), hexs(&crc[..2])),
+		"crc-short-program" => format!(".addr 0x100000FC;\n.du32 0x{:08X};\n.addr 0x10000000;\n.dhex \"{}\";\n", u32::from_le_bytes(crc_short), hexs(&code[..n])),
+		"crc-one-byte" => format!(".addr 0x10000000;\n.dhex \"{}\";\n.addr 0x100000FF;\n.du8 0x{:02X};\n", hexs(&code), crc[3]),
+		"cursor-gap" => format!(".addr 0x20000010;\n.du32 1;\n.addr 0x20000008;\n.du32 2;\n.du32 3;\n.addr 0x20000010;\n{}", *rng.pick(&["", "x:\n", ".addr 0x20000100;\nNOP;\n", "x:\n.addr 0x20000020;\n.du32 x;\n"])),
+		"cursor-gap-include" => {std::fs::write(dir.join("fill.asm"), ".du32 2;\n.du16 3;\n").unwrap(); std::fs::write(dir.join("fill.bin"), [9u8, 9]).unwrap();
+			".addr 0x20000010;\nNOP;\n.addr 0x20000008;\n.include \"fill.asm\";\n.dfile \"fill.bin\";\n.addr 0x20000010;\n.addr 0x20000040;\nNOP;\n".to_owned()},
+		"cursor-top" => format!(".addr 0xFFFFFFF{:X};\n.dhex \"{}\";\n.addr 0xFFFFFFFF;\n", 16 - n.min(15), "5a".repeat(n.min(15))),
+		"cursor-top-label" => ".addr 0xFFFFFFFE;\nNOP;\n.addr 0xFFFFFFFF;\nx:\n".to_owned(),
+		_ => {cx.report.oracle_fail(input, "unrecognised replay input"); return;},
+	};
+	std::fs::write(dir.join("main.asm"), &main).unwrap();
+	let sentinel = seed % 2 == 0;
+	if sentinel {std::fs::write(dir.join("out.uf2"), b"previous output").unwrap();}
+	let before = dir_snapshot(&dir);
+	let out = Command::new(repo_bin("trias")).arg("main.asm").arg("out.uf2").current_dir(&dir).output().expect("cannot run trias");
+	let after = dir_snapshot(&dir);
+	cx.report.case(Some(&format!("refuse {name} {}", after == before)));
+	cx.report.hit(&format!("must be refused: {name}"));
+	{
+		use std::os::unix::process::ExitStatusExt;
+		if let Some(sig) = out.status.signal() {cx.report.oracle_fail(input.clone(), format!("trias was killed by signal {sig}"));}
+	}
+	if after != before
+	{
+		cx.report.oracle_fail(input.clone(), format!("a program that must be refused ({name}) {} the output file ({} bytes); program {main:?}", if sentinel {"overwrote"} else {"created"}, after.get("out.uf2").map(|f| f.len()).unwrap_or(0)));
+	}
+	if out.stderr.is_empty() {cx.report.oracle_fail(input.clone(), format!("a program that must be refused ({name}) was refused silently or accepted; program {main:?}"));}
+	let _ = std::fs::remove_dir_all(&dir);
+}
+
+const REFUSE_CASES: [&str; 10] = ["crc-du32", "crc-dhex", "crc-dfile", "crc-two-regions", "crc-short-program", "crc-one-byte", "cursor-gap", "cursor-gap-include", "cursor-top", "cursor-top-label"];
+
 pub fn run(_id: &str, cx: &mut Cx)
 {
 	cx.report.rule = "generated projects on disk (main file with .addr regions in shuffled source order, region labels referenced by .du32 — also forward —, .du8/.du16/.du32/.dhex/.dstr, instructions, \
@@ -713,6 +767,12 @@ non-trivial = an output file was written; distinct = distinct output files".to_o
 	if let Some(input) = cx.replay.clone()
 	{
 		if let Some(name) = input.strip_prefix("cli ") {cli_case(cx, name); return;}
+		if let Some(rest) = input.strip_prefix("refuse ")
+		{
+			let w: Vec<&str> = rest.split(' ').collect();
+			refuse_case(cx, w[0], w.get(1).and_then(|x| x.parse().ok()).unwrap_or(0));
+			return;
+		}
 		match input.strip_prefix("gen ").and_then(|s| u64::from_str_radix(s, 16).ok())
 		{
 			Some(seed) => check_case(cx, seed),
@@ -721,6 +781,7 @@ non-trivial = an output file was written; distinct = distinct output files".to_o
 		return;
 	}
 	for name in CLI_CASES {cli_case(cx, name);}
+	for name in REFUSE_CASES {for _ in 0..if cx.thorough() {40} else {6} {let seed = cx.rng.next(); refuse_case(cx, name, seed);}}
 	let n = if cx.thorough() {20_000} else {1_500};
 	for _ in 0..n
 	{
